@@ -2,8 +2,11 @@
     -> decoder state machine (Model/Edgebreaker.v) -> a table isomorphic ([eb_iso]) to the encoder's, with the face bijection
     and rotation determined by processed_connectivity_corners_.  This file only restates theorems of
       Model/EbTrace.v + Proofs/EbTrace_proofs.v   the TRACE (small-step) presentation of the encoder
-      Proofs/EbSimEnc_proofs.v                    encoder side: the history invariant
+      Proofs/EbSimEnc_proofs.v                    encoder side: the history invariant, the stack discipline without events
       Proofs/EbSimDec_proofs.v                    decoder side: decoder step lemmas (forward form), the simulation relation
+      Proofs/EbSimS_proofs.v                      decoder side: symbol S without split event
+      Proofs/EbSimCompact_proofs.v                decoder side: the vertex compaction accepts and renames injectively
+      Proofs/EbSimLoop_proofs.v                   decoder side: symbol loop + start faces + compaction along a script
       Proofs/EbSim_proofs.v                       composition.
 
     STATUS
@@ -50,8 +53,34 @@
                                          S symbols without split events, UNDER THE PREMISE [ndp] (the stack discipline of the
                                          encoder's trace has no pop of an already visited entry; decidable [ndp_b], it holds on
                                          the grid discs of the Examples; every encoding with a split event violates it)
-    NOT proved: [ndp] from `no split event` (the face_to_split_symbol_map_ argument); the encoder-side facts [script_at] for S
-    in several runs (the decoder side [C01_ebsim_dec_roundtrip_script] already covers them); split events (general theorem). *)
+      C01_ebsim_trace_one_run / C01_ebsim_no_dead_pop
+                                         proved: with ONE start-face bit the trace is one run (every step a link, E / S find a
+                                         non-empty stack, first stack = [start corner], at the end everything left is popped);
+                                         [ndp] holds iff-style by COUNTING the output symbols: #E = #S + 1 (the slack
+                                         1 + #S - #E - |stack| never decreases, starts at 0 and must end at 0)
+      C01_ebsim_roundtrip_no_event / C01_ebsim_roundtrip_no_event_ct
+                                         proved, NO premise on the trace: the round trip on the decidable OUTPUT class
+                                         [class_noev]: symbols C S L R E, no split event, one run, #E = #S + 1; every
+                                         remove_invalid_vertices; against eb_core for every well-formed table, against
+                                         [eb_decode_of] for CornerTable::Create tables (premises as for _CERL)
+      C01_ebsim_no_event_count / C01_ebsim_class_no_event
+                                         proved (encoder invariant [KI] / [KO] of EbSimEnc_proofs along inner / outer /
+                                         from_corner / ec_corner): while no split event is recorded no corner-stack entry below
+                                         the top dies (such an entry is the left corner pushed by an S, its S face carries a
+                                         face_to_split_symbol_map_ entry; the strip that reaches its face from elsewhere sees
+                                         the S face as a visited right / left neighbour and records an event) and
+                                         |stack| = 1 + #S - #E; so one start-face bit + no event => #E = #S + 1, and
+                                         [class_noev1] (without the count) implies [class_noev] on the encoder's outputs
+      C01_ebsim_roundtrip_no_event_1 / C01_ebsim_roundtrip_no_event_1_ct
+                                         proved: THE ROUND TRIP ON THE CLASS "symbols C S L R E, no split event, one run"
+                                         ([class_noev1]: decidable on the output), every remove_invalid_vertices
+      C01_ebsim_trace_no_event_1         proved: the simulation ALONG THE TRACE for that class ([sim3]): at every configuration
+                                         the decoder (run on the last k symbols) is in SIM with it, and the STACKS correspond:
+                                         decoder stack = tip corners of the faces [tops Y k] = face of the current corner
+                                         followed by the faces of the encoder's stack entries below its top
+    NOT proved: the encoder-side facts [script_at] for S in SEVERAL runs (the decoder side
+    [C01_ebsim_dec_roundtrip_script] already covers them; the encoder side needs [tops_stack] run by run); encodings WITH
+    split events (holes met by the traversal, handles): the general theorem. *)
 From Coq Require Import ZArith List Bool.
 From Draco Require Import Model.CornerTable Model.EbEncoder Model.EbTrace Proofs.CornerTable_proofs Proofs.EbEncoder_proofs.
 From Draco Require Import Proofs.EbTrace_proofs Proofs.EbSimEnc_proofs Proofs.EbSimDec_proofs Proofs.EbSimS_proofs Proofs.EbSimLoop_proofs Proofs.EbSim_proofs.
@@ -383,6 +412,79 @@ Theorem C01_ebsim_roundtrip_no_event_partial : forall c2v opp nf nv niso ndeg o 
 Proof. exact ebsim_roundtrip_noev1_partial. Qed.
 Print Assumptions C01_ebsim_roundtrip_no_event_partial.
 
+Theorem C01_ebsim_trace_one_run : forall c2v opp nv niso ndeg o tr, eb_encode_tr c2v opp nv niso ndeg = EOk (o, tr) ->
+  length (o_bits o) = 1 ->
+  exists t, tr = rev t /\
+   (t = [] \/ (ladj opp t /\ (exists cf r, t = cf :: r /\ slink opp cf (rev (o_syms o)) []) /\
+               exists pre cf, t = pre ++ [cf] /\ stack (cf_st cf) = [Some (cf_corner cf)])).
+Proof. exact trace_one_run. Qed.
+Print Assumptions C01_ebsim_trace_one_run.
+
+Theorem C01_ebsim_no_dead_pop : forall c2v opp nv niso ndeg o tr, eb_encode_tr c2v opp nv niso ndeg = EOk (o, tr) ->
+  length (o_bits o) = 1 -> ideal (rev (o_syms o)) = 0%Z -> hd 0%Z (rev (o_syms o)) = 7%Z -> ndp opp tr.
+Proof. exact ndp_of_count. Qed.
+Print Assumptions C01_ebsim_no_dead_pop.
+
+Theorem C01_ebsim_roundtrip_no_event : forall c2v opp nf nv niso ndeg o rm maxv,
+  length c2v = 3 * nf -> opp_ok c2v opp -> (forall c, c < 3 * nf -> vtx c2v c < nv) -> one_fan c2v opp ->
+  eb_encode c2v opp nv niso ndeg = EOk o -> class_noev o = true -> (cntv (rev (o_syms o)) <= maxv)%Z ->
+  let F := Z.of_nat (length (o_pcc o)) in
+  exists n s, Edgebreaker.eb_core (3 * F) maxv F rm (rev (o_syms o)) (o_events o) (Edgebreaker.bits_of_list (o_bits o)) = Edgebreaker.Ok (n, s) /\
+              eb_iso c2v opp (o_pcc o) (Edgebreaker.c2v s) (Edgebreaker.copp s).
+Proof. exact ebsim_roundtrip_noev. Qed.
+Print Assumptions C01_ebsim_roundtrip_no_event.
+
+Theorem C01_ebsim_roundtrip_no_event_ct : forall faces t o rm, ct_create faces = Some t -> eb_encode_ct t = EOk o -> class_noev o = true ->
+  (Z.of_nat (3 * length faces + length (ct_vcorn t)) < 2147483648)%Z ->
+  ((3 * o_nfaces o) / 2 <= (o_nverts o * (o_nverts o - 1)) / 2)%Z ->
+  verts_fit o ->
+  exists n s, eb_decode_of o rm = Edgebreaker.Ok (n, s) /\ eb_iso (ct_c2v t) (ct_opp t) (o_pcc o) (Edgebreaker.c2v s) (Edgebreaker.copp s).
+Proof. exact ebsim_roundtrip_noev_ct. Qed.
+Print Assumptions C01_ebsim_roundtrip_no_event_ct.
+
+Theorem C01_ebsim_no_event_count : forall c2v opp nf nv niso ndeg o,
+  length c2v = 3 * nf -> opp_ok c2v opp -> (forall c, c < 3 * nf -> vtx c2v c < nv) -> one_fan c2v opp ->
+  eb_encode c2v opp nv niso ndeg = EOk o -> length (o_bits o) = 1 -> o_events o = [] ->
+  o_syms o = [] \/ ideal (rev (o_syms o)) = 0%Z.
+Proof. exact encode_count_wf. Qed.
+Print Assumptions C01_ebsim_no_event_count.
+
+Theorem C01_ebsim_class_no_event : forall c2v opp nf nv niso ndeg o,
+  length c2v = 3 * nf -> opp_ok c2v opp -> (forall c, c < 3 * nf -> vtx c2v c < nv) -> one_fan c2v opp ->
+  eb_encode c2v opp nv niso ndeg = EOk o -> class_noev1 o = true -> class_noev o = true.
+Proof. exact class_noev1_noev. Qed.
+Print Assumptions C01_ebsim_class_no_event.
+
+Theorem C01_ebsim_roundtrip_no_event_1 : forall c2v opp nf nv niso ndeg o rm maxv,
+  length c2v = 3 * nf -> opp_ok c2v opp -> (forall c, c < 3 * nf -> vtx c2v c < nv) -> one_fan c2v opp ->
+  eb_encode c2v opp nv niso ndeg = EOk o -> class_noev1 o = true -> (cntv (rev (o_syms o)) <= maxv)%Z ->
+  let F := Z.of_nat (length (o_pcc o)) in
+  exists n s, Edgebreaker.eb_core (3 * F) maxv F rm (rev (o_syms o)) (o_events o) (Edgebreaker.bits_of_list (o_bits o)) = Edgebreaker.Ok (n, s) /\
+              eb_iso c2v opp (o_pcc o) (Edgebreaker.c2v s) (Edgebreaker.copp s).
+Proof. exact ebsim_roundtrip_noev1. Qed.
+Print Assumptions C01_ebsim_roundtrip_no_event_1.
+
+Theorem C01_ebsim_roundtrip_no_event_1_ct : forall faces t o rm, ct_create faces = Some t -> eb_encode_ct t = EOk o -> class_noev1 o = true ->
+  (Z.of_nat (3 * length faces + length (ct_vcorn t)) < 2147483648)%Z ->
+  ((3 * o_nfaces o) / 2 <= (o_nverts o * (o_nverts o - 1)) / 2)%Z ->
+  verts_fit o ->
+  exists n s, eb_decode_of o rm = Edgebreaker.Ok (n, s) /\ eb_iso (ct_c2v t) (ct_opp t) (o_pcc o) (Edgebreaker.c2v s) (Edgebreaker.copp s).
+Proof. exact ebsim_roundtrip_noev1_ct. Qed.
+Print Assumptions C01_ebsim_roundtrip_no_event_1_ct.
+
+Theorem C01_ebsim_trace_no_event_1 : forall c2v opp nf nv niso ndeg o tr rm maxv,
+  length c2v = 3 * nf -> opp_ok c2v opp -> (forall c, c < 3 * nf -> vtx c2v c < nv) -> one_fan c2v opp ->
+  eb_encode_tr c2v opp nv niso ndeg = EOk (o, tr) -> class_noev1 o = true -> (cntv (rev (o_syms o)) <= maxv)%Z ->
+  let ns := length (o_syms o) in
+  let NC := (3 * Z.of_nat (length (o_pcc o)))%Z in
+  length tr = ns /\
+  forall i cf, nth_error tr i = Some cf ->
+    length (syms (cf_st cf)) = i /\
+    exists d, Edgebreaker.sym_loop NC maxv rm (Z.of_nat ns) (firstn (ns - i) (rev (o_syms o))) 0 (Edgebreaker.init_st []) = Edgebreaker.Ok d /\
+              sim3 c2v opp (o_pcc o) (rev (o_syms o)) ns NC maxv cf d.
+Proof. exact ebsim_trace_noev1. Qed.
+Print Assumptions C01_ebsim_trace_no_event_1.
+
 Theorem C01_ebsim_ndp_check_sound : forall opp tr, ndp_b opp tr = true -> ndp opp tr.
 Proof. exact ndp_b_sound. Qed.
 Print Assumptions C01_ebsim_ndp_check_sound.
@@ -488,3 +590,13 @@ Example ebsim_noev_grid3x3_compaction : noev_roundtrip (grid 3 3 false) true = S
 Proof. vm_compute. split; reflexivity. Qed.
 Example ebsim_noev_grid4x4_compaction : noev_roundtrip (grid 4 4 false) true = Some true /\ noev_roundtrip (grid 4 4 false) false = Some true.
 Proof. vm_compute. split; reflexivity. Qed.
+
+(** [class_noev] (no split event, one run, #E = #S + 1) on the Examples *)
+Definition in_class_noev faces :=
+  match ct_create faces with
+  | Some t => match eb_encode_ct t with EOk o => Some (class_noev o) | _ => None end
+  | None => None
+  end.
+Example ebsim_class_noev_grids : in_class_noev (grid 3 3 false) = Some true /\ in_class_noev (grid 4 4 false) = Some true /\
+  in_class_noev (firstn 8 (grid 3 3 false) ++ skipn 10 (grid 3 3 false)) = Some false.
+Proof. vm_compute. repeat split; reflexivity. Qed.
